@@ -28,6 +28,8 @@ import (
 	"fmt"
 	"log"
 	"net/url"
+	"slices"
+	"sort"
 	"time"
 
 	"github.com/dlintw/goconf"
@@ -228,9 +230,13 @@ func (s *backendStorageEtcd) EtcdKeyUpdated(client *EtcdClient, key string, data
 	}
 
 	if !replaced {
-		// New backend, add to list.
+		// New backend, add to list. Keep the list sorted by key, this is the order
+		// in which the backends are added when they are loaded on startup.
 		log.Printf("Added backend %s (from %s)", info.Url, key)
-		s.backends[host] = append(entries, backend)
+		idx := sort.Search(len(entries), func(i int) bool {
+			return entries[i].id > key
+		})
+		s.backends[host] = slices.Insert(entries, idx, backend)
 		updateBackendStats(backend)
 		statsBackendsCurrent.Inc()
 	}
